@@ -18,7 +18,9 @@ PASS_THROUGH_SUFFIX = (
     "::to_lowercase", "::to_uppercase", "::to_ascii_lowercase", "::trim", "::as_deref", "::cloned",
     "::copied", "::to_vec", "::as_slice", "::into_iter", "::iter", "::unwrap", "::expect", "::as_path",
     "::to_path_buf", "::into_boxed_str", "::unwrap_or", "::map_err", "::ok", "::get_mut", "::as_pin_mut",
-    "::as_mut_ptr", "::into_string", "::to_str", "::to_string_lossy", "::into_owned", "::as_os_str",
+    "::as_mut_ptr", "::into_string", "::to_str", "::to_string_lossy", "::into_owned", "::as_os_str", "::next", "::values",
+    "::keys", "::iter_mut", "::first", "::last", "::map", "::filter", "::filter_map", "::and_then", "::rev", "::enumerate",
+    "::peekable", "::chain", "::skip", "::take",
 )
 # poll: value comes from the awaited future (arg 0)
 POLL = "std::future::Future::poll"
